@@ -110,6 +110,21 @@ M = [
  ('c18-full-queue-push-drops-oldest', 'C18', REPO + '/crates/turmoil-io-uring/src/squeue.rs',
   "            if ring.sq.len() >= ring.depth as usize {\n                return Err(PushError);\n            }",
   "            if ring.sq.len() >= ring.depth as usize {\n                ring.sq.pop_front();\n                return Err(PushError);\n            }"),
+ ('hunt-c10-errno-kinds-reverted', 'C10', SHIM,
+  "    Error::new(kind, msg)\n}",
+  "    let _ = kind;\n    Error::other(msg)\n}"),
+ ('hunt-c10-own-removedir-not-flushed', 'C10', FS,
+  "                PendingOp::RemoveDir { path: p } if p == path => true,\n",
+  ""),
+ ('hunt-c18-null-zero-length-write', 'C18', SIM,
+  "    // Zero-length write: nothing to transfer, the pointer may be NULL.\n    if len == 0 {\n        return 0;\n    }\n",
+  ""),
+ ('hunt-c18-fsync-samples-io-error', 'C18', SIM,
+  "    let _ = rng;\n    match fs.sync_file(&path) {",
+  "    if sample_prob(rng, fs.io_error_probability) {\n        return -EIO;\n    }\n    match fs.sync_file(&path) {"),
+ ('hunt-c18-ring-ignores-access-mode', 'C18', SIM,
+  "    if fs.unwritable_fds.contains(&fd) {\n        return -EBADF;\n    }\n",
+  ""),
 ]
 
 # independently seeded changes (patch files), see NOTES.md (e)
